@@ -75,9 +75,15 @@ TQCs(vw, qcs) ==
     LET cr == CorrectReports(vw)
         have == {s \in Validators : s \in Faulty \/ \E e \in cr : e.s = s}
     IN UNION {{DeriveTQ(vw, g) : g \in DProd(S, vw, cr, qcs)} : S \in {T \in Quorums : T \subseteq have}}
+(* Weaken = "tqc_stale_votes": certificate verification no longer requires the aggregated timeout votes to be  *)
+(* for the certificate's own view, so a certificate formable for an EARLIER view can be relabelled as one for   *)
+(* any later view (replica_timeout.rs: `msg.view != self.view`).                                                 *)
+StaleTQCs(qcs) ==
+    IF Weaken # "tqc_stale_votes" THEN {}
+    ELSE UNION {{[t EXCEPT !.view = vw] : t \in TQCs(ov, qcs)} : <<ov, vw>> \in {p \in TimeoutViews \X (0..ViewCap) : p[1] < p[2]}}
 Justs ==
     LET qcs == QCs
-    IN {CJ(q) : q \in qcs} \cup UNION {{TJ(t) : t \in TQCs(vw, qcs)} : vw \in TimeoutViews}
+    IN {CJ(q) : q \in qcs} \cup UNION {{TJ(t) : t \in TQCs(vw, qcs)} : vw \in TimeoutViews} \cup {TJ(t) : t \in StaleTQCs(qcs)}
 
 (***************************************************************************)
 (* Applying a handler result at replica r.                                 *)
